@@ -205,11 +205,8 @@ def corrupt_family(rnd, n):
         else:
             z = bytearray(scen.rand_bytes(rnd, 40))
         hs = ref6455.handshake_response(scen.ACCEPT, extra=b"Sec-WebSocket-Extensions: permessage-deflate; server_max_window_bits=%d\r\n" % swb)
-        try:
-            ref = zlib.decompressobj(-swb).decompress(bytes(z) + ref7692.TAIL)
-            zt = ref
-        except zlib.error:
-            zt = None
+        ref, ended = ref7692.inflate_message(bytes(z), swb)
+        zt = None if ref is None else ((ref, True) if ended else ref)
         sc = dict(cfg=simnet.default_cfg(), steps=[("data", 0, hs + E(1, bytes(z), rsv=4) + E(2, b"after")), ("eof", 0)], keys=scen.keys(rnd, 3), key16=scen.KEY16,
                   ztape=[zt], zlog=True, ws_kwargs=dict(compress=True))
         sc["_params"] = (swb, 15, False, False)
@@ -217,8 +214,8 @@ def corrupt_family(rnd, n):
         sc["_sends"] = []
         # what may legitimately be delivered: the original text (if the corruption was harmless) or whatever plain zlib yields, when that is valid UTF-8
         exp = [[6, p], [7, b"after"]]
-        if zt is not None:
-            exp.append([6, zt])
+        if ref is not None:
+            exp.append([6, ref])
         sc["_expect"] = exp
         scs.append(sc)
     return scs
